@@ -525,41 +525,14 @@ func fnShort(fn *ssa.Function) string {
 	return s
 }
 
-// safety obligation name: stable across paths (ordinal = static position in the function).
+// safety obligation name: kind plus the source text of the expression that can fail,
+// so that names survive unrelated edits (no line numbers, no SSA temporaries).
 func (x *Exec) safeName(fn *ssa.Function, ins ssa.Instruction, kind string) string {
-	if _, ok := x.safeOrd[ins]; !ok {
-		n := 0
-		for _, b := range fn.Blocks {
-			for _, i := range b.Instrs {
-				n++
-				if _, ok := x.safeOrd[i]; !ok {
-					x.safeOrd[i] = n
-				}
-			}
-		}
-	}
-	// ordinal among instructions that can raise this kind is approximated by instruction ordinal rank
-	rank := 0
-	for _, b := range fn.Blocks {
-		for _, i := range b.Instrs {
-			if sameSafetyClass(i, ins) {
-				rank++
-			}
-			if i == ins {
-				goto done
-			}
-		}
-	}
-done:
-	base := "safety:" + kind
+	base := "safety:" + kind + ":" + x.P.srcOf(ins, kind)
 	if fn != x.top {
-		base += ":" + fnShort(fn)
+		base += "@" + fnShort(fn)
 	}
-	return fmt.Sprintf("%s#%d", base, rank)
-}
-
-func sameSafetyClass(a, b ssa.Instruction) bool {
-	return fmt.Sprintf("%T", a) == fmt.Sprintf("%T", b)
+	return base
 }
 
 func (x *Exec) safety(st *State, ins ssa.Instruction, kind, goal string) {
